@@ -110,6 +110,7 @@ func (f *fcFix) call(m string, rng *rand.Rand, g int) bool {
 type pkFix struct {
 	parent, child *common.PubkeyCache
 	n             int
+	childLen      int
 }
 
 func newPkFix(rng *rand.Rand) fixture {
@@ -124,7 +125,7 @@ func newPkFix(rng *rand.Rand) fixture {
 	if err != nil || ch == nil {
 		panic("fixture: fork-out failed")
 	}
-	return &pkFix{parent: p, child: ch, n: n}
+	return &pkFix{parent: p, child: ch, n: n, childLen: at + 1}
 }
 
 func (f *pkFix) call(m string, rng *rand.Rand, g int) bool {
@@ -144,7 +145,9 @@ func (f *pkFix) call(m string, rng *rand.Rand, g int) bool {
 		}
 	case "AddValidator":
 		// the next index of the parent (same for both goroutines), a known pair, or a fork-out with a private key
-		switch rng.Intn(4) {
+		switch rng.Intn(5) {
+		case 4: // the next index of the forked-out child (its own key pool)
+			f.child.AddValidator(common.ValidatorIndex(f.childLen), keyBytes[8+f.childLen])
 		case 0:
 			i := rng.Intn(f.n)
 			f.parent.AddValidator(common.ValidatorIndex(i), keyBytes[i])
